@@ -59,23 +59,45 @@ pub struct LogHandler {
 impl Handler for LogHandler {
     fn read(&self, ctx: impl ReadContext, reply: impl ReadReply) -> Result<(), Error> {
         let attr = ctx.attr();
-        SHARED.lock().unwrap().log.push(format!("R.{}.{}.{}", attr.endpoint_id, attr.cluster_id, attr.attr_id));
-        if let Some(mut writer) = reply.with_dataver(self.dataver.get())? {
-            if attr.array && attr.list_index.is_none() {
+        // list attributes hold one element; `list_index`: None = whole value, Some(null) = the empty
+        // list that opens an item-by-item (chunked) encoding, Some(i) = element i
+        let li = attr.list_index.clone().map(|li| li.into_option());
+        let res = if let Some(mut writer) = reply.with_dataver(self.dataver.get())? {
+            if attr.array {
                 let tag = writer.tag();
-                {
-                    let mut tw = writer.writer();
-                    tw.start_array(tag)?;
-                    tw.u8(&TLVTag::Anonymous, 7)?;
-                    tw.end_container()?;
+                match li {
+                    None => {
+                        {
+                            let mut tw = writer.writer();
+                            tw.start_array(tag)?;
+                            tw.u8(&TLVTag::Anonymous, 7)?;
+                            tw.end_container()?;
+                        }
+                        writer.complete()
+                    }
+                    Some(None) => {
+                        {
+                            let mut tw = writer.writer();
+                            tw.start_array(tag)?;
+                            tw.end_container()?;
+                        }
+                        writer.complete()
+                    }
+                    Some(Some(0)) => writer.set(7u8),
+                    Some(Some(_)) => Err(ErrorCode::ConstraintError.into()),
                 }
-                writer.complete()
             } else {
                 writer.set(7u8)
             }
         } else {
             Ok(())
+        };
+        // an effect = data was produced for the attribute (a call that ran out of space in the
+        // current chunk is repeated by the IM and produced nothing; list elements are not counted)
+        if res.is_ok() && !matches!(li, Some(Some(_))) {
+            SHARED.lock().unwrap().log.push(format!("R.{}.{}.{}", attr.endpoint_id, attr.cluster_id, attr.attr_id));
         }
+        res
     }
 
     fn write(&self, ctx: impl WriteContext) -> Result<(), Error> {
@@ -230,6 +252,9 @@ fn render(opcode: u8, payload: &[u8], resp: &mut Vec<String>, top: &mut String) 
         if let Some(reports) = &r.attr_reports {
             for a in reports.iter().take(ITEM_CAP) {
                 match a {
+                    // the elements of a list sent item by item (list index = null: append) belong to the
+                    // attribute report that opened the list
+                    Ok(AttrResp::Data(d)) if d.path.list_index.is_some() => {}
                     Ok(AttrResp::Data(d)) => resp.push(format!("ok {} {} {}", fmt_o(d.path.endpoint), fmt_o(d.path.cluster), fmt_o(d.path.attr))),
                     Ok(AttrResp::Status(s)) => resp.push(format!(
                         "st {}/{}/{} {}",
@@ -475,7 +500,6 @@ pub fn run_request(device: &Matter<'_>, env: &Env, req: &Req) -> Answer {
         Some(None) => {}
     }
     let effects = SHARED.lock().unwrap().log.clone();
-    let _ = ErrorCode::Invalid;
     Answer { top, resp, effects }
 }
 
